@@ -1,5 +1,8 @@
 mod base;
 pub use base::*;
 
+#[cfg(yui_verif)]
+pub mod verif;
+
 pub mod dense;
 pub mod sparse;
